@@ -171,12 +171,194 @@ theorem approved_of_crash {cfg : Cfg} {i : In} {master : String} {md : NodeState
   obtain ⟨h1, ⟨md', hd', _⟩, h3, h4⟩ := approveFailover_ok_none h
   exact ⟨h1, ⟨md, hd, Or.inr hc, Or.inl hc⟩, h3, h4⟩
 
+theorem quiet_append {a b : List Step} (ha : ∀ s ∈ a, quiet s = true) (hb : ∀ s ∈ b, quiet s = true) :
+    ∀ s ∈ a ++ b, quiet s = true := by
+  intro s hs
+  rcases List.mem_append.mp hs with h | h
+  · exact ha s h
+  · exact hb s h
+
 /-- the steps appended by `afterSwitch`: either all quiet, or quiet steps followed by exactly one
 filing, which then happens outside light maintenance and with every approval gate open -/
 theorem asTail_char (cfg : Cfg) (i : In) (master : String) (light : Bool) :
     (∀ s ∈ asTail cfg i master light, quiet s = true) ∨
     (∃ q, asTail cfg i master light = q ++ [.issueFailover] ∧ (∀ s ∈ q, quiet s = true) ∧
       light = false ∧ Approved cfg i master) := by
-  sorry
+  unfold asTail
+  rcases hd : i.dcs.get? master with _ | md
+  · left; simp [quiet]
+  · simp only
+    have hq := detectSteps_quiet (!md.pingOk || md.isFsReadonly) i.failedAt
+    generalize detectSteps (!md.pingOk || md.isFsReadonly) i.failedAt = d at hq ⊢
+    cases hb : (!md.pingOk || md.isFsReadonly) <;> cases light
+    all_goals simp only [Bool.false_and, Bool.true_and, Bool.not_false, Bool.not_true, if_true, if_false,
+      Bool.false_eq_true]
+    · rcases i.cs.get? master with _ | cm <;> simp only []
+      · left; exact quiet_append hq (by simp [quiet])
+      · split
+        · left; exact quiet_append hq (by simp [quiet])
+        · split
+          · rename_i hcrash
+            split
+            · left; exact quiet_append hq (by simp [quiet])
+            · rename_i happ
+              right
+              refine ⟨d ++ [.repairOffline, .repairCluster, .crashRecoverySeen], by simp,
+                quiet_append hq (by simp [quiet]), trivial, approved_of_crash hd ?_ happ⟩
+              simp at hcrash; exact ⟨hcrash.2, hcrash.1.1⟩
+            · left; exact quiet_append hq (by simp [quiet])
+          · left; exact quiet_append hq (by simp [quiet])
+    · left
+      repeat' split
+      all_goals exact quiet_append hq (by simp [quiet])
+    · rcases ha : approveFailover cfg i master (timerNext true i.now i.failedAt) with e | _ | r <;>
+        simp only [verdictStep]
+      · left; exact quiet_append hq (by simp [quiet])
+      · right; exact ⟨d, rfl, hq, trivial, approved_of_bad hd hb ha⟩
+      · left; exact quiet_append hq (by simp [quiet])
+    · left
+      repeat' split
+      all_goals exact quiet_append (quiet_append hq (by simp [quiet])) (by simp [quiet])
+
+/-- under light maintenance nothing is filed -/
+theorem asTail_light_quiet (cfg : Cfg) (i : In) (master : String) :
+    ∀ s ∈ asTail cfg i master true, quiet s = true := by
+  rcases asTail_char cfg i master true with h | ⟨_, _, _, h, _⟩
+  · exact h
+  · cases h
+
+/-! ### normal form of `handleSwitch` -/
+
+def performTail : PerformOutcome → List Step
+  | .abortedMeanwhile => []
+  | .panicked => [.panic "performSwitchover"]
+  | .failed => [.switchFailed]
+  | .ok => [.switchFinished]
+
+/-- the steps of the handling of a request that is not parked by light maintenance -/
+def hsTail (cfg : Cfg) (i : In) (sw : Switch) : List Step :=
+  if timedOut cfg i.now sw then [.switchTimedOut]
+  else if !approveSwitchover cfg i sw then [.switchRejected]
+  else if !i.startOk then [.switchStarted false]
+  else [.switchStarted true, .switchPerformed i.perform] ++ performTail i.perform
+
+theorem handleSwitch_err {cfg : Cfg} {i : In} {master : String} {light : Bool} {pre : List Step}
+    (h : i.sw = .err) :
+    handleSwitch cfg i master light pre = { steps := pre, next := .manager, failedAt := i.failedAt } := by
+  simp [handleSwitch, h]
+
+theorem handleSwitch_absent {cfg : Cfg} {i : In} {master : String} {light : Bool} {pre : List Step}
+    (h : i.sw = .absent) :
+    handleSwitch cfg i master light pre =
+      { steps := pre ++ asTail cfg i master light, next := .manager, failedAt := asTimer i master } := by
+  simp [handleSwitch, h, afterSwitch_eq]
+
+theorem handleSwitch_parked {cfg : Cfg} {i : In} {master : String} {pre : List Step} {sw : Switch}
+    (h : i.sw = .record sw) (hf : sw.failoverType = true) :
+    handleSwitch cfg i master true pre =
+      { steps := pre ++ .failoverSuppressedByLight :: asTail cfg i master true, next := .manager,
+        failedAt := asTimer i master } := by
+  simp [handleSwitch, h, hf, afterSwitch_eq]
+
+theorem handleSwitch_record {cfg : Cfg} {i : In} {master : String} {light : Bool} {pre : List Step}
+    {sw : Switch} (h : i.sw = .record sw) (hf : ¬ (light = true ∧ sw.failoverType = true)) :
+    handleSwitch cfg i master light pre =
+      { steps := pre ++ hsTail cfg i sw, next := .manager, failedAt := i.failedAt } := by
+  have hf' : (light && sw.failoverType) = false := by
+    cases light <;> cases hft : sw.failoverType <;> simp_all
+  simp only [handleSwitch, h, hf', hsTail, timedOut]
+  obtain ⟨f, t, ca, ft, ia, rc⟩ := sw
+  rcases ia with _ | t <;> simp only [] <;>
+    cases approveSwitchover cfg i _ <;> cases i.startOk <;> cases i.perform <;> simp [performTail] <;>
+    (split <;> rfl)
+
+/-! ### normal form of `stateManager` -/
+
+/-- steps taken by an iteration that returns before the switch handling -/
+def early : Step → Bool
+  | .writeEmerge | .tryLeaveMaintenance | .setMaintPaused false | .enterMaintenance _ => true
+  | _ => false
+
+/-- the iteration reaches the switch handling for `master`, under `light`, having taken `pre` -/
+def Enters (i : In) (master : String) (light : Bool) (pre : List Step) : Prop :=
+  i.connected = true ∧ i.lockHeld = true ∧ i.dcsStateErr = false ∧ i.master = some master ∧
+  i.activeNodesErr = false ∧
+  ((light = false ∧ pre = [] ∧ (i.maint = .absent ∨ i.maint = .err false)) ∨
+   (light = true ∧ pre = [] ∧ i.maint = .record true true false) ∨
+   (light = true ∧ pre = [.setMaintPaused true] ∧ i.maint = .record true false false ∧ i.setPausedOk = true))
+
+theorem stateManager_of_enters {cfg : Cfg} {i : In} {master : String} {light : Bool} {pre : List Step}
+    (h : Enters i master light pre) : stateManager cfg i = handleSwitch cfg i master light pre := by
+  obtain ⟨hc, hl, hd, hm, ha, h⟩ := h
+  rcases h with ⟨rfl, rfl, h | h⟩ | ⟨rfl, rfl, h⟩ | ⟨rfl, rfl, h, hs⟩ <;>
+    simp [stateManager, *]
+
+theorem stateManager_early_or_enters (cfg : Cfg) (i : In) :
+    ((stateManager cfg i).failedAt = i.failedAt ∧ (∀ s ∈ (stateManager cfg i).steps, early s = true)) ∨
+    ∃ master light pre, Enters i master light pre := by
+  cases hc : i.connected
+  · left; simp [stateManager, hc]
+  cases hl : i.lockHeld
+  · left; simp [stateManager, hc, hl]
+  cases hd : i.dcsStateErr
+  rotate_left
+  · left; simp [stateManager, hc, hl, hd]
+  rcases hm : i.master with _ | m
+  · left; cases hmm : i.manyMasters <;> simp [stateManager, hc, hl, hd, hm, hmm, early]
+  cases ha : i.activeNodesErr
+  rotate_left
+  · left; simp [stateManager, hc, hl, hd, hm, ha]
+  rcases hmt : i.maint with _ | f | ⟨l, p, s⟩
+  · right; exact ⟨m, false, [], hc, hl, hd, hm, ha, Or.inl ⟨rfl, rfl, Or.inl hmt⟩⟩
+  · cases f
+    · right; exact ⟨m, false, [], hc, hl, hd, hm, ha, Or.inl ⟨rfl, rfl, Or.inr hmt⟩⟩
+    · left; simp [stateManager, hc, hl, hd, hm, ha, hmt]
+  · cases l <;> cases p <;> cases s <;> try (left; simp [stateManager, hc, hl, hd, hm, ha, hmt, early]; done)
+    · left; cases he : i.enterMaintOk <;> simp [stateManager, hc, hl, hd, hm, ha, hmt, he, early]
+    · left; cases he : i.enterMaintOk <;> simp [stateManager, hc, hl, hd, hm, ha, hmt, he, early]
+    · cases hs : i.setPausedOk
+      · left; simp [stateManager, hc, hl, hd, hm, ha, hmt, hs, early]
+      · right; exact ⟨m, true, [.setMaintPaused true], hc, hl, hd, hm, ha, Or.inr (Or.inr ⟨rfl, rfl, hmt, hs⟩)⟩
+    · right; exact ⟨m, true, [], hc, hl, hd, hm, ha, Or.inr (Or.inl ⟨rfl, rfl, hmt⟩)⟩
+
+/-- every shape that one iteration can take -/
+theorem stateManager_shape (cfg : Cfg) (i : In) :
+    ((stateManager cfg i).failedAt = i.failedAt ∧ ∀ s ∈ (stateManager cfg i).steps, early s = true) ∨
+    ∃ master light pre, Enters i master light pre ∧
+      ((i.sw = .err ∧ stateManager cfg i = ⟨pre, .manager, i.failedAt⟩) ∨
+       (i.sw = .absent ∧
+         stateManager cfg i = ⟨pre ++ asTail cfg i master light, .manager, asTimer i master⟩) ∨
+       (∃ sw, i.sw = .record sw ∧ light = true ∧ sw.failoverType = true ∧
+         stateManager cfg i =
+           ⟨pre ++ .failoverSuppressedByLight :: asTail cfg i master true, .manager, asTimer i master⟩) ∨
+       (∃ sw, i.sw = .record sw ∧ ¬ (light = true ∧ sw.failoverType = true) ∧
+         stateManager cfg i = ⟨pre ++ hsTail cfg i sw, .manager, i.failedAt⟩)) := by
+  rcases stateManager_early_or_enters cfg i with h | ⟨m, light, pre, h⟩
+  · exact Or.inl h
+  · refine Or.inr ⟨m, light, pre, h, ?_⟩
+    rw [stateManager_of_enters h]
+    rcases hsw : i.sw with _ | _ | sw
+    · exact Or.inr (Or.inl ⟨rfl, handleSwitch_absent hsw⟩)
+    · exact Or.inl ⟨rfl, handleSwitch_err hsw⟩
+    · by_cases hp : light = true ∧ sw.failoverType = true
+      · obtain ⟨rfl, hf⟩ := hp
+        exact Or.inr (Or.inr (Or.inl ⟨sw, rfl, rfl, hf, handleSwitch_parked hsw hf⟩))
+      · exact Or.inr (Or.inr (Or.inr ⟨sw, rfl, hp, handleSwitch_record hsw hp⟩))
+
+theorem Enters.pre_mem {i : In} {master : String} {light : Bool} {pre : List Step}
+    (h : Enters i master light pre) : ∀ s ∈ pre, s = .setMaintPaused true := by
+  obtain ⟨_, _, _, _, _, h⟩ := h
+  rcases h with ⟨_, rfl, _⟩ | ⟨_, rfl, _⟩ | ⟨_, rfl, _⟩ <;> simp
+
+/-- steps of the handling of a request -/
+def swStep : Step → Bool
+  | .switchTimedOut | .switchRejected | .switchStarted _ | .switchPerformed _ | .switchFailed
+  | .switchFinished | .panic _ => true
+  | _ => false
+
+theorem hsTail_mem (cfg : Cfg) (i : In) (sw : Switch) : ∀ s ∈ hsTail cfg i sw, swStep s = true := by
+  unfold hsTail
+  repeat' split
+  all_goals cases i.perform <;> simp [swStep, performTail]
 
 end ManagerLemmas
